@@ -212,3 +212,71 @@ extern "C" void harness_lines_sequence() {
   if (twice) { Paths64 again = rc.Execute(in); VA(again.size() == 2); }      // same object, second call
   verif_reach();
 }
+
+// ---- C09.a: the whole RectClipLines64::ExecuteInternal on one symbolic segment ------------------------------------------------
+// Real code: ExecuteInternal, GetLocation, GetNextLocation, GetIntersection, Add. Contracts: GetSegmentIntersection = exact proper
+// crossing with the crossing point satisfying the C18.d contract (on the edge, within one unit per axis of the true crossing);
+// deque/vector appends = fresh pool element / no-reallocation append.
+static OutPt2 g_pool[8]; static int g_pool_n;
+extern "C" __attribute__((noinline)) OutPt2* stub_pool_outpt2(std::deque<OutPt2>* dq, OutPt2&& init) { VA(g_pool_n < 8); ASSUME(g_pool_n < 8); OutPt2* p = &g_pool[g_pool_n++]; *p = init; return p; }
+extern "C" __attribute__((noinline)) OutPt2** stub_oplist_append(OutPt2List* v, OutPt2*& p) {
+  VA(v->_M_impl._M_finish != v->_M_impl._M_end_of_storage); ASSUME(v->_M_impl._M_finish != v->_M_impl._M_end_of_storage);
+  OutPt2** f = v->_M_impl._M_finish; *f = p; v->_M_impl._M_finish = f + 1; return f;
+}
+static Rect64 g_rect;
+extern "C" __attribute__((noinline)) bool stub_segint_pt(const Point64& p1, const Point64& p2, const Point64& p3, const Point64& p4, Point64& ip) {
+  int e = edge_of(&p3, &p4);
+  VA(e >= 0); ASSUME(e >= 0);
+  if (!proper_cross(p1, p2, p3, p4)) return false;
+  // crossing point: on the edge, within one unit per axis of the true crossing (C18.d contract), cross-multiplied in 32 bits
+  int32_t dx = (int32_t)(p2.x - p1.x), dy = (int32_t)(p2.y - p1.y);
+  int64_t q = nd_range(-2048, 2048);
+  if (e == 0 || e == 2) { int32_t X = (int32_t)(e == 0 ? g_rect.left : g_rect.right); ip.x = X; ip.y = q;
+    int32_t lhs = ((int32_t)q - (int32_t)p1.y) * dx - dy * (X - (int32_t)p1.x); int32_t adx = dx < 0 ? -dx : dx;
+    ASSUME(lhs <= adx && lhs >= -adx); ASSUME(q >= g_rect.top && q <= g_rect.bottom); }
+  else { int32_t Y = (int32_t)(e == 1 ? g_rect.top : g_rect.bottom); ip.y = Y; ip.x = q;
+    int32_t lhs = ((int32_t)q - (int32_t)p1.x) * dy - dx * (Y - (int32_t)p1.y); int32_t ady = dy < 0 ? -dy : dy;
+    ASSUME(lhs <= ady && lhs >= -ady); ASSUME(q >= g_rect.left && q <= g_rect.right); }
+  return true;
+}
+extern "C" void harness_lines_internal() {
+  const int64_t L = (int64_t)1 << LIL;
+  Rect64 r(nd_range(-L, L), nd_range(-L, L), nd_range(-L, L), nd_range(-L, L)); ASSUME(r.left + 4 < r.right && r.top + 4 < r.bottom);
+  RectClipLines64& rc = *new RectClipLines64(r);
+  g_rect = r; g_rp = rc.rect_as_path_.data(); rc.results_.reserve(4);
+  Point64 a(nd_range(-L, L), nd_range(-L, L)), b(nd_range(-L, L), nd_range(-L, L));
+  ASSUME(a != b);
+  // general position: no end point on an edge line, the segment through no corner
+  ASSUME(a.x != r.left && a.x != r.right && a.y != r.top && a.y != r.bottom && b.x != r.left && b.x != r.right && b.y != r.top && b.y != r.bottom);
+  for (int k = 0; k < 4; ++k) ASSUME(orient(a, b, g_rp[k]) != 0);
+  Path64 path; path.reserve(2); path.push_back(a); path.push_back(b);
+  g_pool_n = 0;
+  rc.ExecuteInternal(path);
+  bool a_in = a.x > r.left && a.x < r.right && a.y > r.top && a.y < r.bottom, b_in = b.x > r.left && b.x < r.right && b.y > r.top && b.y < r.bottom;
+  bool crosses = false; const int A[4] = {0, 0, 1, 2}, B[4] = {3, 1, 2, 3};
+  for (int e = 0; e < 4; ++e) if (proper_cross(a, b, g_rp[A[e]], g_rp[B[e]])) crosses = true;
+  size_t n = rc.results_.size();
+  VA(n <= 1);
+  // a piece exists exactly when part of the segment is inside the rectangle
+  VA((n == 1) == (a_in || b_in || crosses));
+  if (n == 1) {
+    OutPt2* op = rc.results_[0]; VA(op != nullptr); ASSUME(op != nullptr);
+    OutPt2* first = op->next;                         // GetPath starts at op->next
+    VA(first->next == op && op->next == first && first != op);      // exactly two points
+    const Point64& q0 = first->pt; const Point64& q1 = op->pt;
+    // inside the closed rectangle
+    VA(q0.x >= r.left && q0.x <= r.right && q0.y >= r.top && q0.y <= r.bottom && q1.x >= r.left && q1.x <= r.right && q1.y >= r.top && q1.y <= r.bottom);
+    // each end is the input end point if that is inside, else a boundary point
+    if (a_in) VA(q0 == a); else VA(q0.x == r.left || q0.x == r.right || q0.y == r.top || q0.y == r.bottom);
+    if (b_in) VA(q1 == b); else VA(q1.x == r.left || q1.x == r.right || q1.y == r.top || q1.y == r.bottom);
+    // input order and direction (weakly: a crossing point may be rounded by one unit)
+    int32_t dir = (int32_t)(q1.x - q0.x) * (int32_t)(b.x - a.x) + (int32_t)(q1.y - q0.y) * (int32_t)(b.y - a.y);
+    int32_t len1 = (b.x > a.x ? b.x - a.x : a.x - b.x) + (b.y > a.y ? b.y - a.y : a.y - b.y);
+    VA(dir >= -2 * len1);
+    // on the input segment within 1.5 units: |cross(a,b,q)| <= 1.5 * (|dx| + |dy|) bounds the distance by 1.5 * sqrt(2) ... use the per-axis contract
+    int32_t c0 = orient(a, b, q0), c1 = orient(a, b, q1); if (c0 < 0) c0 = -c0; if (c1 < 0) c1 = -c1;
+    int32_t adx = (int32_t)(b.x > a.x ? b.x - a.x : a.x - b.x), ady = (int32_t)(b.y > a.y ? b.y - a.y : a.y - b.y);
+    VA(c0 <= (adx > ady ? adx : ady) && c1 <= (adx > ady ? adx : ady));      // |cross| <= max(|dx|,|dy|)  <=>  within one unit along an axis
+  }
+  verif_reach();
+}
